@@ -73,7 +73,7 @@ def aslr_prefix():
 
 
 class Ctx:
-    def __init__(self, repo=None):
+    def __init__(self, repo=None, seed_for_generated=1):
         self.repo = repo or repo_dir()
         self.tool = tool_build(self.repo)
         self.permute = os.path.join(cargo_build(["permute"], self.repo), "permute")
@@ -111,6 +111,17 @@ class Ctx:
             with open(os.path.join(cdir, "config.toml"), "w") as f:
                 f.write(text)
             self.corpora[name] = {"entry": entry, "dir": cdir, "states": {}}
+        # two bridges from gc-sim's generator (lifetime-heavy signatures, borrowing structs, out-structs)
+        for gi in range(2):
+            name = "generated%d" % gi
+            cdir = os.path.join(self.work, name)
+            os.makedirs(os.path.join(cdir, "elsewhere"))
+            rc, o, e = run_capture(["node", os.path.join(sd, "js", "gen.mjs"), "--seed", str(seed_for_generated), "--bridge", str(1000 + gi), "--out", cdir])
+            if rc != 0:
+                raise HarnessError("gen.mjs failed: " + e[-1500:])
+            with open(os.path.join(cdir, "config.toml"), "w") as f:
+                f.write('lib-name = "vsimgen"\n\n[kotlin]\ndomain = "dev.vsim"\nlib-name = "vsimfromfilek"\n\n[demo-gen]\nrelative-js-path = "../js/"\n\n[nanobind]\nlib-name = "vsimfromfile"\n')
+            self.corpora[name] = {"entry": os.path.join(cdir, "src", "lib.rs"), "dir": cdir, "states": {}}
         self.counters = {}
         self.seam = {"getrandom": 0, "clock": 0, "getpid": 0, "gethostname": 0, "heap_allocs": 0}
         self.listing_orders = {}
@@ -400,7 +411,7 @@ def minimise(ctx, corpus, edits, i, backend, amb_a, amb_b, oracle):
 def check(tier, seed):
     t0 = time.time()
     b = BUDGET[tier]
-    ctx = Ctx()
+    ctx = Ctx(seed_for_generated=seed)
     rng = Rng.derive(seed, "proc-sim", 0)
     cases = []
     samples = []
@@ -500,7 +511,7 @@ def check(tier, seed):
 
 def replay(path):
     rep = json.load(open(path))
-    ctx = Ctx()
+    ctx = Ctx(seed_for_generated=rep.get("seed", 1))
     backend = [x for x in BACKENDS if x[0] == rep["backend"]][0]
     oracle, diff, before, after = run_case(ctx, rep["corpus"], rep["edits"], rep["edit_index"], backend, rep["ambient_a"], rep["ambient_b"])
     print("replayed %s on %s/%s: edits=%s" % (oracle, rep["corpus"], rep["backend"], rep["edits"]))
